@@ -4,7 +4,7 @@ import numpy as np
 from harness import common as C
 from harness import layouts as L
 
-ANCHORS = ["T7pipe"]
+ANCHORS = ["T7pipe", "T7unseen"]
 MODELS = ["NdCase", "Pipe", "PipeCase", "Concat", "ConcatCase"]
 RULE = ("layouts enumerated: container (DataArray/Dataset/list) x 1..3 sample dims x 1..3 feature dims x dimension orders x index kind per "
         "dimension (ascending, unsorted, string, datetime, MultiIndex) x Dataset variables with equal/different dimension sets x extra "
@@ -83,6 +83,79 @@ def item_for_model(da, sample_dims, ns_expected):
     fd = [d for d in dims if d not in sd]
     order = [dims.index(d) for d in sd] + [dims.index(d) for d in fd]
     return list(da.shape), np.asarray(da.values, dtype=float).ravel().tolist(), order
+
+
+def run_accessors(ctx, rng):
+    """every public accessor of every single-set model class returns the sample labels / feature labels of the input: data
+    with a fully missing sample, unsorted labels, one and two sample dimensions (with a transform of other data in between)"""
+    import xarray as xr
+    import xeofs as xe
+    from harness import zoo as Z
+    specs = Z.specs()
+    SAMPLE_ACC = ("scores", "scores_amplitude", "scores_phase")
+    FEATURE_ACC = ("components", "components_amplitude", "components_phase", "filter_patterns")
+    for name in ("EOF", "ComplexEOF", "HilbertEOF", "SparsePCA", "POP", "OPA", "ExtendedEOF"):
+        sp = specs[name]
+        for two in (False, True):
+            if two and sp.ordered:
+                continue
+            nt, nm, p = 8, (3 if two else 1), 4
+            X = rng.standard_normal((nt, nm, p)) + (1j * rng.standard_normal((nt, nm, p)) if sp.cplx else 0)
+            tl = np.array([3, 9, 1, 7, 5, 11, 13, 15]) if not sp.ordered else np.arange(nt)
+            xl = np.array([40.0, 10.0, 30.0, 20.0])
+            da = xr.DataArray(X, dims=("time", "member", "x"), coords={"time": tl, "member": np.arange(nm) + 10, "x": xl})
+            if not sp.ordered:
+                da[4, 0, :] = np.nan                       # a fully missing sample
+            if not two:
+                da = da.isel(member=0, drop=True)
+            dim = ("time", "member") if two else "time"
+            lay = dict(kind="accessors", cls=name, two_sample_dims=two)
+            ctx.case(lay, nontrivial=True, tag="accessors/%s/%s" % (name, "two-sample-dims" if two else "one-sample-dim"))
+            for rot in (False, True):
+                if rot and Z.rotator_for(name) is None:
+                    continue
+                try:
+                    m = sp.make(2)
+                    m.fit(da, dim)
+                    if two and name in ("EOF", "ComplexEOF", "SparsePCA"):
+                        other = da.assign_coords(time=tl + 100, member=da.member.values + 50).fillna(0.5)
+                        m.transform(other)
+                    obj = m
+                    if rot:
+                        obj = Z.rotator_for(name)(n_modes=2, max_iter=3000)
+                        obj.fit(m)
+                        if two and name in ("EOF", "ComplexEOF"):
+                            obj.transform(other)
+                except RuntimeError:
+                    continue
+                except Exception as e:
+                    ctx.violation("C02:accessors:%s:error:%s" % (name, C.errkind(e)), "%s%s on data with a fully missing sample raised %r" % (name, "Rotator" if rot else "", e), dict(kind="layout", layout=lay))
+                    continue
+                label = name + ("Rotator" if rot else "")
+                for acc in SAMPLE_ACC + FEATURE_ACC:
+                    fn = getattr(obj, acc, None)
+                    if fn is None:
+                        continue
+                    try:
+                        out = fn()
+                    except NotImplementedError:
+                        continue
+                    except Exception as e:
+                        ctx.violation("C02:accessors:%s:%s:error" % (label, acc), "%s.%s() raised %r" % (label, acc, e), dict(kind="layout", layout=lay))
+                        continue
+                    want = [d for d in da.dims if (d in ("time", "member")) == (acc in SAMPLE_ACC)]
+                    extra = {"mode"} | ({"embedding"} if name == "ExtendedEOF" and acc in FEATURE_ACC else set())
+                    ok = set(out.dims) == set(want) | extra
+                    why = "dims %r" % (out.dims,)
+                    if ok and name == "ExtendedEOF" and acc in SAMPLE_ACC:
+                        want_t = None          # the lag windows shorten the sample axis: not an input label set
+                    else:
+                        for d in want:
+                            if ok and sorted(out[d].values.tolist()) != sorted(da[d].values.tolist()):
+                                ok, why = False, "labels along %s are %r, the input has %r" % (d, out[d].values.tolist()[:5], da[d].values.tolist()[:5])
+                    if not ok:
+                        ctx.violation("C02:accessors:%s:%s" % (label, acc), "%s.%s() on %s: %s" % (label, acc, "two sample dims after transform(other data)" if two else "one sample dim with a fully missing sample", why),
+                                      dict(kind="layout", layout=lay, accessor=acc))
 
 
 def run(ctx):
@@ -213,6 +286,7 @@ def run(ctx):
         ctx.oblige("correspondence:stacking-model (%d layouts, exact)" % len(cases), "correspondence", ok and nbad == 0, "%d disagreements" % nbad)
     from harness import ren
     ren.run_concat(ctx, "C02", ctx.n(40, 400))
+    run_accessors(ctx, rng)
     ctx.oblige("oracle:structure and labels preserved on every enumerated layout", "oracle", not ctx.violations)
 
 
